@@ -6,6 +6,7 @@ import (
 	"go/token"
 	"go/types"
 	"log"
+	"sort"
 
 	"github.com/goghcrow/go-ast-matcher"
 	"github.com/goghcrow/go-imports"
@@ -184,8 +185,43 @@ func (r *rewriter) rewriteFile(f *loader.File, printer FilePrinter) {
 	log.Printf("write file: %s\n", f.Filename)
 	// clear free-floating comments, preventing confusing position of comments
 	// https://github.com/golang/go/issues/20744
+	if r.comments != nil {
+		// doc comments are not free-floating, keep them, e.g., //go:embed, //go:noinline
+		r.comments = append(docComments(f.File), r.comments...)
+		sort.SliceStable(r.comments, func(i, j int) bool {
+			return r.comments[i].Pos() < r.comments[j].Pos()
+		})
+	}
 	f.File.Comments = r.comments
 	printer(f.Filename, f)
+}
+
+// docComments collects the doc comments of the declarations and specs of file
+func docComments(file *ast.File) (docs []*ast.CommentGroup) {
+	add := func(doc *ast.CommentGroup) {
+		if doc != nil && len(doc.List) > 0 {
+			docs = append(docs, doc)
+		}
+	}
+	for _, decl := range file.Decls {
+		switch decl := decl.(type) {
+		case *ast.FuncDecl:
+			add(decl.Doc)
+		case *ast.GenDecl:
+			add(decl.Doc)
+			for _, spec := range decl.Specs {
+				switch spec := spec.(type) {
+				case *ast.ValueSpec:
+					add(spec.Doc)
+				case *ast.TypeSpec:
+					add(spec.Doc)
+				case *ast.ImportSpec:
+					add(spec.Doc)
+				}
+			}
+		}
+	}
+	return
 }
 
 // ↓↓↓↓↓↓↓↓↓↓↓↓↓↓↓↓↓↓↓↓↓↓ Collect YieldFunc ↓↓↓↓↓↓↓↓↓↓↓↓↓↓↓↓↓↓↓↓↓↓
